@@ -28,6 +28,16 @@ class Gen(object):
         self.objs = {}
 
     def cls(self, t):
+        """One class object per distinct type expression: the object that went into the service
+        signature is the one consulted later (the interface names anonymous types in place)."""
+        import json
+        key = json.dumps(t, sort_keys=True, default=str)
+        c = self.objs.get(key)
+        if c is None:
+            c = self.objs[key] = self._cls(t)
+        return c
+
+    def _cls(self, t):
         from spyne import ComplexModel, Array, XmlAttribute, Enum
         k = t['k']
         if k == 'prim':
